@@ -1,132 +1,9 @@
-"""C01 - optimization never changes what a query computes.
+"""C01 - optimization never changes what a query computes (driver: family.py, program space: QueryGen focus general)."""
+from . import family
 
-spec/QueryGen.tla (program space, order/index definedness), spec/Rel.tla (acceptance), spec/RelTrace.tla (conformance).
-reference = the query lowered without optimization; observations = every optimizer stage / fuse on-off / a second
-partition layout with unknown divisions and an empty partition.
-"""
-from __future__ import annotations
-
-import json
-import random
-
-from . import common, rel, tlc
-
-TIERS = {
-    "quick": dict(depth=2, sample=500, sim_num=60, sim_depth=4, stages=["simplified-logical", "simplified-physical", "fused"]),
-    "thorough": dict(depth=2, sample=None, sim_num=1500, sim_depth=5,
-                     stages=["simplified-logical", "tuned-logical", "physical", "simplified-physical", "fused"]),
-}
-
-
-def replay(case):
-    q, sc = case["q"], case["sc"]
-    tabs = rel.make_tables(case["dseed"])
-    results = []
-    tr = {"tid": case["tid"], "kind": "query", "q": q, "sc": sc}
-    # layout 1: from_pandas, known divisions
-    env = rel.dask_sources(tabs, {"T1": ("from_pandas", case["np1"]), "T2": ("from_pandas", case["np2"])})
-    try:
-        coll = rel.build(q, env, "dask")
-    except Exception as ex:
-        # the query cannot even be built (meta computation failed): nothing to optimize
-        return {"tid": case["tid"], "kind": "query", "q": q, "sc": sc, "unbuildable": f"{type(ex).__name__}: {ex}"[:200]}
-    ref = rel.observe(lambda: rel.run_unoptimized(coll))
-    results.append(ref)
-    obs = []
-    for st in case["stages"]:
-        r = rel.observe(lambda st=st: rel.run_stage(coll, st))
-        obs.append({"label": st, "res": r, "ord": True, "idx": True})
-        results.append(r)
-    r = rel.observe(lambda: rel.run_compute(coll))
-    obs.append({"label": "compute", "res": r, "ord": True, "idx": True})
-    results.append(r)
-    # layout 2: arbitrary cuts incl. an empty partition, unknown divisions -> only the end result, compared as the
-    # same query (row order compares only when the query defines it)
-    n1 = len(tabs["T1"])
-    env2 = rel.dask_sources(tabs, {"T1": ("cuts", case["cuts1"], False), "T2": ("from_pandas", 1)})
-    try:
-        coll2 = rel.build(q, env2, "dask")
-        ref2 = rel.observe(lambda: rel.run_unoptimized(coll2))
-        r2 = rel.observe(lambda: rel.run_compute(coll2))
-    except Exception as ex:
-        ref2 = {"ok": False, "err": type(ex).__name__}
-        r2 = {"ok": False, "err": type(ex).__name__}
-    results += [ref2, r2]
-    pdres = rel.observe(lambda: rel.build(q, tabs, "pandas"))
-    results.append(pdres)
-    tr["scale"] = rel.finalize(results)
-    tr["ref"] = ref
-    tr["obs"] = obs
-    tr["ref2"] = ref2
-    tr["obs2"] = [{"label": "layout2-compute", "res": r2, "ord": True, "idx": True}]
-    tr["pandas"] = pdres
-    tr["msgs"] = {o["label"]: o["res"].get("msg", "")[:120] for o in obs + tr["obs2"] if not o["res"]["ok"]}
-    return tr
-
-
-def split_traces(tr):
-    """one RelTrace line per (reference, observations) pair"""
-    a = {k: tr[k] for k in ("tid", "kind", "q", "sc", "scale", "ref", "obs")}
-    b = dict(a, tid=tr["tid"] + 1, ref=tr["ref2"], obs=tr["obs2"])
-    return [a, b]
-
-
-def strip(res):
-    return {k: v for k, v in res.items() if k in ("ok", "err", "t")}
+TIERS = family.TIERS
+replay = family.replay
 
 
 def run(tier="quick", seed=0, replay_path=None):
-    chk = common.Check("C01", tier, seed)
-    t = TIERS[tier]
-    rnd = random.Random(seed)
-    if replay_path:
-        with open(replay_path) as f:
-            c = json.load(f)["case"]
-        cases = [c]
-    else:
-        qs = rel.gen_queries("general", t["depth"], seed=seed, sample=t["sample"], sim_num=t["sim_num"], sim_depth=t["sim_depth"], chk=chk)
-        cases = []
-        for c in qs:
-            cases.append({"q": c["q"], "sc": c["sc"], "dseed": rnd.randrange(5), "np1": rnd.choice([2, 3]), "np2": rnd.choice([1, 2]),
-                          "cuts1": rnd.choice([[3, 3, 6], [0, 4], [2, 5, 9]]), "stages": t["stages"]})
-    for i, c in enumerate(cases):
-        c["tid"] = 2 * i
-    chk.evaluations = len(cases)
-    chk.rule = ("programs = reachable states of spec/QueryGen.tla (focus general): all of depth<=1, a seeded sample of depth 2, plus TLC -simulate behaviours "
-                f"up to depth {t['sim_depth']}; each on seeded 9x7-row tables with NULLs/duplicate keys, layout A (from_pandas 2-3 partitions, known divisions: reference + "
-                f"stages {t['stages']} + compute()) and layout B (from_map cuts with an empty partition, unknown divisions). non-trivial = at least one operator and the reference computed")
-    common.assert_repo()
-    raw = common.pmap(replay, cases)
-    lines, unb, bytid = [], 0, {}
-    for c, tr in zip(cases, raw):
-        if "__machinery__" in tr:
-            chk.machinery.append(tr["__machinery__"] + " :: " + json.dumps(c["q"])[:200])
-            continue
-        if "unbuildable" in tr:
-            unb += 1
-            continue
-        for ln in split_traces(tr):
-            ln = dict(ln, ref=strip(ln["ref"]), obs=[dict(o, res=strip(o["res"])) for o in ln["obs"]])
-            lines.append(ln)
-            bytid[ln["tid"]] = (c, tr)
-        if tr["ref"]["ok"] and rel.ops_of(c["q"])[1:]:
-            chk.note_nontrivial(common.case_hash(c["q"]))
-    if len(chk.machinery) > 0.03 * len(cases):
-        raise tlc.MachineryError(f"too many replay failures: {chk.machinery[:3]}")
-    cfg = tlc.cfg(init="Init", next="Next", postcondition="AllConsumed")
-    results, rejects, _, _ = tlc.validate("RelTrace", lines, cfg_text=cfg, chunk=250, parallel=10)
-    for r in results:
-        chk.add_tlc("RelTrace", r)
-    chk.traces = len(lines)
-    for tid, clause in rejects.items():
-        c, tr = bytid[tid]
-        pub = {k: c[k] for k in ("q", "sc", "dseed", "np1", "np2", "cuts1", "stages")}
-        chk.fail(clause, dict(pub, ops=rel.ops_of(c["q"])), {"msgs": tr.get("msgs"), "layout": "A" if tid % 2 == 0 else "B"})
-    chk.extra["unbuildable_queries"] = unb
-    chk.extra["reference_failed"] = sum(1 for ln in lines if not ln["ref"]["ok"])
-    for ln in lines[3:2000:700]:
-        chk.sample({"q": ln["q"], "sc": ln["sc"], "ref_rows": ln["ref"].get("t", {}).get("rows", [])[:4], "labels": [o["label"] for o in ln["obs"]]})
-    chk.assumptions += ["reference execution = expr.lower_completely() graph on the synchronous scheduler",
-                        "row order / index labels compared only where spec/QueryGen.tla derives them as defined (sc.ord, sc.idx)",
-                        "values are floats of small integers; non-integral results (mean, var) are compared after scaling by 1000 and rounding"]
-    return chk.finish()
+    return family.run_family("C01", "general", TIERS, tier, seed, replay_path)
